@@ -93,6 +93,23 @@ COMPOSES_STAT = {
     "stat_io_roundtrip": ["C14 reader_roundtrip_jaspar16", "alphabets_wf", "GenIoAbc from_ascii tables (letters_ok by computation)"],
 }
 
+COMPOSES_PY = {
+    "pycore_conf_total": ["C04_configure_spec (on a value that carries its Striped invariant)"],
+    "pycore_conf_text": ["C04_configure_spec"],
+    "pycore_conf_ok": ["C04_configure_spec (wrap' = max wrap (M-1))"],
+    "pycore_score_text": ["StripeBridge.striped_bridge", "ScoreProofs.generic_score_striped / generic_score_short (C01)"],
+    "pycore_scan_text": ["E2EProofs.e_env_c_env", "ConcreteProofs.env_R / env_Lm / env_score_position / env_score_rows / "
+                         "env_cscore_spec / env_cdscore_spec (C02)", "E2EKernelScan.kcollect_eq (extensionality of collect)"],
+    "pycore_scan_stable": ["pycore_scan_text", "C04_configure_spec"],
+    "pycore_history_depends_on_text_only": ["C17.py_history_depends_on_text_only", "the five lemmas above"],
+    "pycore_scanner_lazy_eq_eager": ["C17.py_scanner_lazy_eq_eager", "pycore_scan_stable"],
+    "pycore_calculate_is_C01": ["C01_score_unstripe", "C04_configure_spec", "the glue model PyGlueModel.glue_calculate"],
+    "pycore_scan_is_C02": ["E2EStretch.scan_buffer_spec (C02_concrete_scan_c08 + C08 main clause)", "PyGlueModel.glue_scan"],
+    "pycore_guarded_fields_partial": ["C04_stripe_fresh_spec", "C04_configure_spec", "C01_score_unstripe", "scan_buffer_spec"],
+    "pycore_guarded_partial": ["pycore_guarded_fields_partial", "hypothesis rest_total (the operations not instantiated)"],
+    "pycore_call_no_panic_partial": ["C17.py_panic_only_from_core", "pycore_guarded_partial"],
+}
+
 TRUSTED_BASE = [
     "Coq 8.16.1 kernel (coqc, full .vo builds); vm_compute only in the Example lemmas of E2E.v",
     "the models of the composed groups are tied to /repo by THEIR checks (C01, C02, C03, C04, C05, C07, C08, C10); "
@@ -101,6 +118,10 @@ TRUSTED_BASE = [
     "knext_block/knext_loop/knext/kcollect of ScanModel.next_block/.., proved equal to the original)",
     "the Gen*.v files of the imported groups are regenerated from the current tree first (vlib.common.translate_deps)",
     "E2EStat.v: the models of coq/{pwm,dist,tfm,io} are tied to /repo by the checks of C09/C10, C11, C12/C13, C14",
+    "E2EPyCore.v: the glue model coq/pyglue (PyGlueModel.v) is tied to lightmotif-py by the check of C17; E2EPyCoreDefs.v adds "
+    "the assembly text of the instance (which model is plugged into which field of the core record, the guards outside the "
+    "models' domain: CPanic for an ill-typed matrix, an empty matrix, fewer than M-1 look-ahead rows, block size 0) and an "
+    "encoder by specification (symbol = index in the alphabet string)",
 ]
 
 ASSUMPTIONS = [
@@ -118,6 +139,11 @@ ASSUMPTIONS = [
     "within eta of the exact threshold (eta is a parameter: the theorems do not model how `score(p) as f32` is rounded); "
     "the p-value tables are those of the binary32 matrix read as rationals, computed exactly (C11 / C13 are exact-arithmetic "
     "theorems; the binary64 tables of the code are tied to them by the replay of C11 / C12 / C13 with their tolerances)",
+    "E2EPyCore.v (C17): values of the striped-sequence type carry their Striped invariant (C04) as ghost data; "
+    "pycore_calculate_is_C01 / pycore_scan_is_C02 / pycore_guarded_fields_partial assume the typing premise `typed s q` (matrix "
+    "rows have as many cells as the alphabet of the sequence - static in Rust, a label in the glue model); the scanner's value "
+    "and totality statements assume finite non-wildcard cells and C08's main clause for the matrix; the history / lazy-scanner "
+    "theorems (pycore_history_depends_on_text_only, pycore_scanner_lazy_eq_eager) assume nothing",
 ]
 
 
@@ -168,13 +194,16 @@ def build(timeout=2400):
 PROPS = {
     "scan": ("E2E.v", "LME2E.E2E"),
     "stat": ("E2EStat.v", "LME2E.E2EStat"),
+    # C17 (added in round 3, wave 3): the `core` record of coq/pyglue instantiated with the stripe / score / scan models
+    "py": ("E2EPyCore.v", "LME2E.E2EPyCore"),
 }
+ALL_KEYS = ["scan", "stat", "py"]
 
 
 def theorems(which=None):
     """Theorem names of the property files (`which` in PROPS, or None for both, scan first)."""
     out = []
-    for key in ([which] if which else ["scan", "stat"]):
+    for key in ([which] if which else ALL_KEYS):
         out.extend(C.theorems_of(os.path.join(C.coq_dir(GROUP), PROPS[key][0])))
     return out
 
@@ -304,7 +333,7 @@ def obligations(timeout=2400, audit_timeout=1200, which=None):
     the audit to one of them; the build and the scan always cover the whole group).  `failures` is a
     list of strings naming what broke (empty iff ok); `axioms` the allow-listed standard-library
     axioms the theorems depend on."""
-    keys = [which] if which else ["scan", "stat"]
+    keys = [which] if which else ALL_KEYS
     per_file = [(PROPS[k][0], PROPS[k][1], C.theorems_of(os.path.join(C.coq_dir(GROUP), PROPS[k][0]))) for k in keys]
     total = sum(len(t) for _, _, t in per_file)
     failures = []
@@ -353,6 +382,21 @@ def obligations_scan(timeout=2400, audit_timeout=1200):
 def obligations_stat(timeout=2400, audit_timeout=1200):
     """The statistics side only (coq/e2e/E2EStat.v): for C09 / C11 / C12 / C13."""
     return obligations(timeout, audit_timeout, which="stat")
+
+
+def obligations_py(timeout=2400, audit_timeout=1200):
+    """The instance of the Python glue's core record only (coq/e2e/E2EPyCore.v): for C17."""
+    return obligations(timeout, audit_timeout, which="py")
+
+
+# what C17 merges into its SPEC:   SPEC = dict(..., **e2e.PY_EXTRA)
+PY_EXTRA = dict(
+    extra_obligations={"thorough": obligations_py},
+    extra_obligations_name="coq/e2e/E2EPyCore.v: the core record of the glue model instantiated with the models of C04 (stripe, "
+                           "configure), C01 (scoring pipeline) and C02 (concrete Scanner); the five history hypotheses and "
+                           "scan_stable discharged",
+    extra_obligations_cmd="make -C coq/e2e (and imported groups) + Print Assumptions audit of LME2E.E2EPyCore",
+)
 
 
 # what a statistics property (C09 / C11 / C12 / C13) merges into its SPEC to count the theorems of
@@ -408,10 +452,10 @@ def main(tier="quick", seed=1, replay=None):
                 notes.append("coqchk of %s not completed: %r" % (module, e))
     wall = time.time() - t0
     ev = dict(group=GROUP, modules=[m for _f, m in PROPS.values()], level="proof", tier=tier, obligations=total, discharged=discharged,
-              theorems=theorems(), composes=dict(COMPOSES, **COMPOSES_STAT), axioms=axioms, failures=failures, notes=notes,
+              theorems=theorems(), composes=dict(COMPOSES, **COMPOSES_STAT, **COMPOSES_PY), axioms=axioms, failures=failures, notes=notes,
               trusted_base=TRUSTED_BASE, assumptions=ASSUMPTIONS, wall_s=round(wall, 1),
               checker_cmd="make -C coq/e2e (and the groups it imports; coq_makefile, coqc 8.16.1 full .vo build) "
-                          "+ coqc Print Assumptions audit of LME2E.E2E and LME2E.E2EStat")
+                          "+ coqc Print Assumptions audit of LME2E.E2E, LME2E.E2EStat and LME2E.E2EPyCore")
     try:
         os.makedirs(C.BUILD, exist_ok=True)
         json.dump(ev, open(os.path.join(C.BUILD, "e2e-evidence.json"), "w"), indent=1)
